@@ -17,7 +17,7 @@ EXPLANATION = (
     "in the single-threaded configuration that variant is the only one compiled; C03.6 the size-class constants satisfy the relations the unchecked bin indexing and the boundary tags rely on. "
     "C03.7 contents: calloc zeroes the whole request unless the block is null or its own fresh kernel mapping and no other condition guards the zeroing, alloc_zeroed goes through calloc, a moving reallocation copies min(old, new) bytes old->new before freeing the old block; "
     "C03.8 a failed in-place resize mutates nothing: no store or mutating call in try_realloc_chunk lies on a path that then returns null. "
-    "C03.9 an over-aligned request reserves at least request2size(bytes) + alignment + MIN_CHUNK_SIZE - CHUNK_OVERHEAD and splits its tail only when a whole chunk remains. "
+    "C03.10 inner_malloc / inner_realloc (natural alignment only) are reached only under align <= MALLOC_ALIGNMENT; C03.9 an over-aligned request reserves at least request2size(bytes) + alignment + MIN_CHUNK_SIZE - CHUNK_OVERHEAD and splits its tail only when a whole chunk remains. "
     "NOT decided: alignment, disjointness and intactness of live blocks - invariants of the bin/tree/segment shape over call histories (the module's own check_malloc_state is a run-time checker); no structural rule in reach establishes them.")
 ASSUMPTIONS = ["dlmalloc's heap-shape invariants hold (not established here)", "MUNMAP returns 0 or -errno"]
 
@@ -265,6 +265,20 @@ def run_one(ck, prog):
                     guarded = any(f[0] == "cmp" and f[1] in ("Gt", "Ge") and mentions(f[2], cm.prov, lambda z: z[0] == "call" and (z[1] or "").endswith("Chunk::size")) and mentions(f[3], cm.prov, lambda z: z[0] == "call" and (z[1] or "").endswith("request2size")) and mentions(f[3], cm.prov, lambda z: z[0] == "const" and z[2] and z[2].endswith("MIN_CHUNK_SIZE")) for f in fs)
                     ck.ob("C03.9", "tail-split-only-when-a-whole-chunk-remains", guarded and canon(strip_casts(a[1])) == canon(strip_casts(cm.args(bb)[1])), fn=ma["path"], site=cm.site(bb), detail="the spare tail may be split off only under size > nb + MIN_CHUNK_SIZE")
 
+    # ---- C03.10 the plain paths (inner_malloc / inner_realloc guarantee MALLOC_ALIGNMENT only) are taken only for align <= MALLOC_ALIGNMENT
+    MA = prog.const(DL + "MALLOC_ALIGNMENT")
+    for nm, plain, arg_idx in (("malloc", "inner_malloc", 3), ("realloc", "inner_realloc", 4)):
+        f10 = prog.fns.get(DL + nm)
+        if not ck.anchor("C03.10", nm, f10):
+            continue
+        c10 = prog.ctx(f10)
+        for bb, t in c10.cfg.calls(lambda t: t.get("callee") == DL + plain):
+            facts = panics.dominating_facts(c10, bb)
+            bounds = [fold(f[3]) for f in facts if f[0] == "cmp" and f[1] in ("Le", "Lt") and canon(strip_casts(f[2])) == f"p{arg_idx}" and fold(f[3]) is not None] + \
+                     [fold(f[2]) for f in facts if f[0] == "cmp" and f[1] in ("Ge", "Gt") and canon(strip_casts(f[3])) == f"p{arg_idx}" and fold(f[2]) is not None]
+            ok = isinstance(MA, int) and bool(bounds) and min(bounds) <= MA
+            ck.ob("C03.10", f"{nm}|plain-path-only-for-natural-alignment", ok, fn=f10["path"], site=c10.site(bb),
+                  detail=f"{plain} only guarantees MALLOC_ALIGNMENT ({MA}) - it may be used only under align <= {MA}; dominating bounds on the alignment: {bounds}. A looser bound hands out / moves blocks that are not aligned as requested")
     # ---- C03.8 a failed in-place resize leaves the heap untouched ------------------------------------------------------------------------------
     trc = prog.fns.get(DL + "try_realloc_chunk")
     if ck.anchor("C03.8", "try_realloc_chunk", trc):
